@@ -1,1 +1,8 @@
-let () = run_cases2 run_case
+(* C05 driver: the shared PVM cases (pvmdrv.ml) plus the host-call range tests *)
+let range_model toks impl =
+  match toks with
+  | [ "rng"; kind; start; len ] ->
+    let m = { m_pages = parse_pages "@A"; m_hp = zi 0x21000; m_hl = zi 0x30000 } in
+    if range_ok (if kind = "w" then writable else readable) m (z_of_string start) (z_of_string len) then "1" else "0"
+  | _ -> run_case toks impl
+let () = run_cases2 range_model
